@@ -27,8 +27,9 @@ function cfgOf (prefix, kind) {
 
 function plan (seed, run, tier) {
   const rng = new Rng(mix(mix(seed >>> 0, 0xC06), run))
-  // every fifth run exercises the privacy clause (input-driven, labelled as such)
-  if (run % 5 === 4) return planH5(rng, 'sim')
+  // two runs in five exercise the privacy clause; placement and index are walked round-robin (the h5 runs of
+  // a batch cover every placement with the indexes 0, 1, 0, 1, 2, 7 in turn), the rest is drawn
+  if (run % 5 >= 3) return planH5(rng, 'sim', Math.floor(run / 5) * 2 + (run % 5 - 3))
   // contexts of the known finding F5 (non-arrow parameter default, instance class field) are
   // generated in a quarter of the runs only, so three quarters of every batch cannot be masked
   const allowKnownCtx = run % 4 === 1
@@ -217,7 +218,7 @@ module.exports = {
   id: 'C06',
   level: 'exploration',
   chunk: 25,
-  runs: (tier) => tier === 'thorough' ? 120000 : 2000,
+  runs: (tier) => tier === 'thorough' ? 120000 : 3000,
   plan,
   jobs,
   execute,
